@@ -112,6 +112,7 @@ func writeEvidence(prop, tier string, seed int64, conf propConf, m *workerResult
 }
 
 var rules = map[string]string{
+	"C07": "each evaluation is one (journal, damaged entry, damage) triple, distinct by construction; non-trivial = the damaged text has at least one parse error",
 	"C02": "each evaluation is one single-transaction document opened on the real server (parameter vectors are distinct by construction; respellings are distinct texts of the same model); non-trivial = unbalanced, or balanced only through a cost conversion, a virtual posting exclusion or an absorbed remainder",
 	"C03": "each evaluation is one journal rendered from the model with a distinct set of deviations (no two from one parameter group) and parsed once; distinct_nontrivial counts distinct rendered texts with at least one deviation (measured by hashing the text)",
 	"C01": "mirror part: one evaluation = didOpen + one didChange notification (1 or 2 content changes) + comparison with the reference buffer; cases are distinct parameter vectors (document, ranges, texts); non-trivial = the change is not a plain in-range ASCII edit (non-ASCII/non-BMP line, clamped position, 0:0 corner, line break) . History part: one evaluation = one BFS transition replayed on a fresh server; non-trivial = follows a cache-populating request or is a ranged diff edit",
@@ -123,6 +124,7 @@ var rules = map[string]string{
 }
 
 var assumptions = map[string][]string{
+	"C07": {"the undamaged journal parses silently (checked; C03)", "undeclared-account/commodity diagnostics switched off so that damaging a declaration cannot legitimately change other entries' diagnostics"},
 	"C02": {"balanced-virtual postings are pooled with ordinary ones, as the property states", "numbers with exactly one mark followed by exactly three digits are outside G"},
 	"C03": {"grammar G as fixed in DESIGN.md §4.2 (numbers with exactly one mark followed by exactly three digits are excluded as contested)"},
 	"C01": {"clients never name a position strictly inside a surrogate pair or between CR and LF", "background diagnostics run to completion at spawn (inline schedule); schedules are C13/C14's business"},
